@@ -201,7 +201,73 @@ def gen_math():
     digest.append("Math: " + " ".join(f"{n}={env[n]}" for n in names))
 
 
-GENERATORS = [gen_math]
+def class_ints(rel, names, extra_env=None):
+    txt = preprocess(rel)
+    env = dict(extra_env or {})
+    for m in re.finditer(r"static\s+(?:inline\s+)?(?:constexpr|const)\s+(?:int|unsigned|long long|unsigned long long)\s+(\w+)\s*=\s*([^;]+);", txt):
+        try:
+            env[m.group(1)] = ceval(m.group(2), env)
+        except Missing:
+            pass
+    out = {}
+    for n in names:
+        if n not in env:
+            raise Missing(f"{rel}: constant {n} not found")
+        out[n] = env[n]
+    return out
+
+
+def cstring(rel, name):
+    txt = preprocess(rel)
+    m = re.search(r"\b" + name + r"\s*=\s*((?:\"[^\"]*\"\s*)+);", txt)
+    if not m:
+        raise Missing(f"{rel}: string {name} not found")
+    return "".join(re.findall(r"\"([^\"]*)\"", m.group(1)))
+
+
+def math_env():
+    return constexpr_ints(preprocess("include/GeographicLib/Math.hpp"))
+
+
+def gen_gridcodes():
+    me = math_env()
+    body = "namespace GeoVerif.Gen.Grid\n"
+    # Geohash
+    gh = class_ints("include/GeographicLib/Geohash.hpp", ["maxlen_", "mask_"], me)
+    body += f"def geohashMaxlen : Nat := {gh['maxlen_']}\ndef geohashMask : Nat := {gh['mask_']}\n"
+    body += f"def geohashLc : String := {lean_str(cstring('src/Geohash.cpp', 'Geohash::lcdigits_'))}\n"
+    body += f"def geohashUc : String := {lean_str(cstring('src/Geohash.cpp', 'Geohash::ucdigits_'))}\n"
+    # GARS
+    names = ["lonorig_", "latorig_", "baselon_", "baselat_", "lonlen_", "latlen_", "baselen_", "mult1_", "mult2_", "mult3_", "m_", "maxprec_", "maxlen_"]
+    ga = class_ints("include/GeographicLib/GARS.hpp", names, me)
+    for n in names:
+        body += f"def gars_{n.rstrip('_')} : Int := {lean_int(ga[n])}\n"
+    body += f"def garsDigits : String := {lean_str(cstring('src/GARS.cpp', 'GARS::digits_'))}\n"
+    body += f"def garsLetters : String := {lean_str(cstring('src/GARS.cpp', 'GARS::letters_'))}\n"
+    # Georef
+    names = ["tile_", "lonorig_", "latorig_", "base_", "baselen_", "maxprec_", "maxlen_"]
+    ge = class_ints("include/GeographicLib/Georef.hpp", names, me)
+    for n in names:
+        body += f"def georef_{n.rstrip('_')} : Int := {lean_int(ge[n])}\n"
+    for nm in ["digits_", "lontile_", "lattile_", "degrees_"]:
+        body += f"def georef_{nm.rstrip('_')}S : String := {lean_str(cstring('src/Georef.cpp', 'Georef::' + nm))}\n"
+    m = re.search(r"const\s+long\s+long\s+m\s*=\s*(\d+)LL", preprocess("src/Georef.cpp"))
+    if not m:
+        raise Missing("Georef.cpp: scale m not found")
+    body += f"def georef_m : Int := {m.group(1)}\n"
+    # OSGB
+    names = ["base_", "tile_", "tilelevel_", "tilegrid_", "tileoffx_", "tileoffy_", "minx_", "miny_", "maxx_", "maxy_", "maxprec_"]
+    og = class_ints("include/GeographicLib/OSGB.hpp", names, me)
+    for n in names:
+        body += f"def osgb_{n.rstrip('_')} : Int := {lean_int(og[n])}\n"
+    body += f"def osgbLetters : String := {lean_str(cstring('src/OSGB.cpp', 'OSGB::letters_'))}\n"
+    body += f"def osgbDigits : String := {lean_str(cstring('src/OSGB.cpp', 'OSGB::digits_'))}\n"
+    body += "end GeoVerif.Gen.Grid\n"
+    write("Grid", body)
+    digest.append(f"Grid: geohash maxlen={gh['maxlen_']} gars m={ga['m_']} georef m={m.group(1)} osgb tile={og['tile_']} letters={cstring('src/OSGB.cpp', 'OSGB::letters_')}")
+
+
+GENERATORS = [gen_math, gen_gridcodes]
 
 
 def main():
